@@ -618,15 +618,13 @@ def _profile_shapes(tier):
         add(2, 2, 2, 2, 0, 2, 2, 2)
         return out
     for ka, kb in [(2, 1), (3, 1), (2, 2)]:
-        for r in (1, 2):
-            for lb in (2, 3):
-                for sb in (0, 1):
-                    for eb in (lb - 1, lb):
-                        if eb - sb < 1:
-                            continue
-                        for ps in (0, 2):
-                            for ins in (0, 1, 2):
-                                add(ka, kb, r, lb, sb, eb, ps, ins)
+        for lb in (2, 3):
+            for sb in (0, 1):
+                for eb in (lb - 1, lb):
+                    if eb - sb < 1:
+                        continue
+                    for ps, ins in ((0, 0), (2, 1), (0, 2)):
+                        add(ka, kb, 2, lb, sb, eb, ps, ins)
     return out
 def _profile_mirror_shapes(tier):
     sh = _profile_shapes(tier)
